@@ -8,6 +8,7 @@ HELPERS = {
     "shapes.py": "class Circle:\n    def __init__(self, r=1):\n        self.r = r\n\n    def __repr__(self):\n        return 'Circle(%r)' % self.r\n\n\nclass Square:\n    pass\n",
     "geo/__init__.py": "",
     "geo/points.py": "class Point:\n    pass\n",
+    "tvars.py": "from typing import TypeVar\n\nNumber = TypeVar('Number', int, float)\n",
 }
 
 IMPORT_CHOICES = [
@@ -83,7 +84,18 @@ def gen_source(rng, idx):
         qty = "qty: int = 1"           # no None default: the replicating stub needs no `Optional`, hence no import at all
     body.append("class Shop:\n    rate = 2\n\n    def price(self, item, %s):\n        \"\"\"Doc.\"\"\"\n        return self.rate * qty\n\n" % qty +
                 "    @staticmethod\n    def util(x):\n        return [x]\n\n")
+    # a function annotated with a type variable the module imports from elsewhere (or makes with `typing.TypeVar(...)`): the kept
+    # annotation needs nothing new in the module - in particular no new `Number = TypeVar(...)` statement
+    tvar = idx % 4 == 2          # an even index: the stub is built in the default (replicating) mode, so the annotation is kept
+    if tvar:
+        if idx % 8 == 2:
+            imports += "from tvars import Number\n"
+        else:
+            imports += "import typing\n"
+            body.append("Number = typing.TypeVar('Number', int, float)\n\n")
+        body.append("def scale(v: Number, k=2) -> Number:\n    return v * k\n\n")
     body.append("def run():\n    out = [area(make(1)[0]), config({'b': 1, 'a': 2}), Shop().price('x', 2), Shop.util(1)]\n"
+                + ("    out.append(scale(2))\n" if tvar else "")
                 + "".join("    out.append(repr(%s))\n" % u for u in uses) + "    return repr(out)\n")
     src = header + imports + tc_block + "\n" + "".join(body)
     return src, {"existing_tc": existing_tc, "local_import": local_import, "picks": [p[0].strip() for p in picks], "header": header,
@@ -101,8 +113,9 @@ def traces_for(mod, k, plain=False):
     from geo import points
     od = collections.OrderedDict
     area = mod.area.__wrapped__ if hasattr(mod.area, "__wrapped__") else mod.area
+    extra = [CallTrace(mod.scale, {"v": int, "k": int}, int)] if hasattr(mod, "scale") else []
     if plain:
-        return [
+        return extra + [
             # (functions with a None default are left out: the stub of such a function imports typing.Optional, used or not)
             CallTrace(mod.config, {"opts": str}, str),
             CallTrace(mod.Shop.price, {"self": mod.Shop, "item": str, "qty": int}, int),
@@ -116,7 +129,7 @@ def traces_for(mod, k, plain=False):
         CallTrace(mod.Shop.price, {"self": mod.Shop, "item": str, "qty": int}, int),
         CallTrace(mod.Shop.__dict__["util"].__func__, {"x": typing.Optional[int]}, typing.List[int]),
     ]
-    return tr
+    return tr + extra
 
 
 def annotations_of(tree):
@@ -235,7 +248,7 @@ class Fixture:
                 f.write(src)
         sys.path.insert(0, self.root)
         importlib.invalidate_caches()
-        for n in ("shapes", "geo", "geo.points"):
+        for n in ("shapes", "geo", "geo.points", "tvars"):
             sys.modules.pop(n, None)
 
     def load(self, name, source):
@@ -249,7 +262,7 @@ class Fixture:
     def close(self):
         if self.root in sys.path:
             sys.path.remove(self.root)
-        for n in [m for m in sys.modules if m in ("shapes", "geo", "geo.points") or m.startswith("applymod_")]:
+        for n in [m for m in sys.modules if m in ("shapes", "geo", "geo.points", "tvars") or m.startswith("applymod_")]:
             sys.modules.pop(n, None)
 
 
